@@ -57,6 +57,7 @@ func newRefusedPort() (*refusedPort, error) {
 	return &refusedPort{fd: fd, Port: sa.(*syscall.SockaddrInet4).Port}, nil
 }
 func (r *refusedPort) Addr() string { return fmt.Sprintf("127.0.0.1:%d", r.Port) }
+
 // Up makes the reserved port accept (and immediately close) connections from now on.
 func (r *refusedPort) Up() error {
 	if err := syscall.Listen(r.fd, 64); err != nil {
